@@ -360,7 +360,7 @@ h("kd6_stored_resume", D + "/kd6_stored.rs", "deflate::verif_kani::kd6_stored", 
          "0..=3 new input bytes, output space 1..=18, flush in {NoFlush, SyncFlush, FullFlush, Finish}",
   assumptions=["reduced w_size/pending", "raw wrapper"])
 h("kd6_stored_flush_tail_k3", D + "/kd6_stored.rs", "deflate::verif_kani::kd6_stored", ["C11", "C06"],
-  kernel="KD6", expect_s=200, timeout=1800, weight=2, mem_gb=20,
+  kernel="KD6", expect_s=400, timeout=1800, weight=2, mem_gb=20,
   functions=["algorithm::stored::deflate_stored (flush with buffered input)", "zng_tr_stored_block", "flush_pending"],
   bounds="typed level-0 state, w_size 16, pending 64 B; 3 symbolic bytes buffered by an earlier Z_NO_FLUSH call, no new input, output space 0..=12, "
          "flush in {SyncFlush, FullFlush}; BlockDone only with nothing left in the window or pending, and the block bytes compared with RFC 1951 3.2.4",
